@@ -70,6 +70,13 @@ func (v *FV) resolveCallee(fr *Frame, cc *ssa.CallCommon) (*Contract, *ssa.Funct
 	if ci, ok := fr.closures[cc.Value]; ok {
 		return nil, ci.fn
 	}
+	if p, ok := cc.Value.(*ssa.Parameter); ok && fr.isTop {
+		// a callback passed by the caller: an assumed client contract "func F@param"
+		if c, ok := db.Contracts[fnKey(fr.fn)+"@"+p.Name()]; ok {
+			v.trusted["callback parameter "+p.Name()+" of "+shortKey(fnKey(fr.fn))+" is assumed to satisfy its declared client contract"] = true
+			return c, nil
+		}
+	}
 	return nil, nil
 }
 
@@ -638,6 +645,13 @@ func (v *FV) freshResults(st *State, rt *types.Tuple, prefix string) []TV {
 		if s == "Int" && v.isRefType(et) {
 			v.assume(st.reach, v.refOK(n))
 		} else {
+			if s == "Slice" {
+				// the backing array of a returned slice exists when the call returns: it is
+				// below the allocation counter afterwards (later allocations are distinct from it)
+				arrT := fmt.Sprintf("(sl_arr %s)", n)
+				top := v.topOf(st.snap)
+				v.heapSet(st.snap, "TOP", fmt.Sprintf("(store %s 0 (ite (>= %s %s) (+ %s 1) %s))", v.heapGet(st.snap, "TOP"), arrT, top, arrT, top))
+			}
 			v.assume(st.reach, v.typeFacts(n, et))
 		}
 		res = append(res, TV{T: n, Ty: et, Sort: s})
@@ -649,6 +663,16 @@ func (v *FV) freshResults(st *State, rt *types.Tuple, prefix string) []TV {
 func (v *FV) doCall(fr *Frame, st *State, cc *ssa.CallCommon, recvTV TV, args []TV, pos string) []TV {
 	before := v.sharedInterference(fr, st, pos)
 	res := v.doCall2(fr, st, cc, recvTV, args, pos)
+	if cc.IsInvoke() && v.quiet == 0 {
+		// ghost trace of interface method invocations: calls(x.M) counts them per receiver
+		rv := recvTV
+		if rv.T == "" {
+			rv = v.val(fr, cc.Value)
+		}
+		v.regArray("CALLS", fmt.Sprintf("(Array Int %s)", v.idx()))
+		k := v.methodKey(rv.T, cc.Method.Name())
+		v.wr(st.snap, "CALLS", k, v.iadd(v.rd(st.snap, "CALLS", k), v.idxLit(1)))
+	}
 	v.sharedAfterStep(fr, st, before, pos, v.calleeName(cc, nil))
 	return res
 }
@@ -677,6 +701,9 @@ func (v *FV) doCall2(fr *Frame, st *State, cc *ssa.CallCommon, recvTV TV, args [
 					v.countSection(fr, st, ld, args[0].T)
 				}
 			}
+		}
+		if _, isParam := cc.Value.(*ssa.Parameter); isParam && callee == nil && !cc.IsInvoke() {
+			v.bumpCalls(st, v.val(fr, cc.Value).T, args)
 		}
 		return v.applyContract(fr, st, con, callee, cc, recvTV, args, pos)
 	}
@@ -1009,6 +1036,11 @@ func (v *FV) freshResultsFor(st *State, rt *types.Tuple, prefix string, fresh bo
 			v.heapSet(st.snap, "TOP", fmt.Sprintf("(store %s 0 (ite (>= %s %s) (+ %s 1) %s))", v.heapGet(st.snap, "TOP"), n, top, n, top))
 			v.fresh = append(v.fresh, n)
 		} else {
+			if s == "Slice" {
+				arrT := fmt.Sprintf("(sl_arr %s)", n)
+				top := v.topOf(st.snap)
+				v.heapSet(st.snap, "TOP", fmt.Sprintf("(store %s 0 (ite (>= %s %s) (+ %s 1) %s))", v.heapGet(st.snap, "TOP"), arrT, top, arrT, top))
+			}
 			v.assume(st.reach, v.typeFacts(n, et))
 		}
 		res = append(res, TV{T: n, Ty: et, Sort: s})
@@ -1434,4 +1466,19 @@ func (v *FV) bumpCalls(st *State, f Term, args []TV) {
 	if len(args) > 0 && args[0].Sort == "Int" {
 		v.wr(st.snap, "ARGNN", f, fmt.Sprintf("(not (= %s 0))", args[0].T))
 	}
+}
+
+
+// methodKey: the index of the ghost call counter of method m on interface value recv.
+func (v *FV) methodKey(recv Term, m string) Term {
+	fn := "imk_" + mangle(m)
+	v.pre("fn "+fn, fmt.Sprintf("(declare-fun %s (Int) Int)", fn))
+	if !v.preSeen["fnax "+fn] {
+		v.imkCtr++
+		v.pre("imk_tag", "(declare-fun imk_tag (Int) Int)")
+		v.pre("fninv "+fn, fmt.Sprintf("(declare-fun inv_%s (Int) Int)", fn))
+		// counters of different methods / different receivers are different cells, none is an object reference
+		v.pre("fnax "+fn, fmt.Sprintf("(assert (forall ((r Int)) (! (and (< (%s r) (- 1000000)) (= (imk_tag (%s r)) %d) (= (inv_%s (%s r)) r)) :pattern ((%s r)))))", fn, fn, v.imkCtr, fn, fn, fn))
+	}
+	return fmt.Sprintf("(%s %s)", fn, recv)
 }
